@@ -409,6 +409,9 @@ class Logix( Message_Router ):
                                          SINT.tag_type),
                     USINT.tag_type:	(BOOL.tag_type,
                                          USINT.tag_type),
+                    # UDT records are served as opaque raw data; there is nothing that could
+                    # turn the raw payload of a write back into records.
+                    STRUCT.tag_type:	(),
                 }
                 assert data[context].type in allowed_tag_types.get(
                     attribute.parser.tag_type, (attribute.parser.tag_type,) ), \
